@@ -42,7 +42,8 @@ RULE = ("history = terminal identity + screen size <= 60x30 + pool of <= 6 widge
 PROBES = ["image_moved_between_redraws", "image_disappeared", "bare_non_composite_canvas",
           "overlay_covers_image", "list_scrolled", "widget_collected_z_index_reused",
           "stop_start_cycle", "clear_images_now", "konsole_iterm2_image", "resize",
-          "ghost_free_redraws", "returned_to_earlier_layout"]
+          "ghost_free_redraws", "returned_to_earlier_layout",
+          "kitty_style_by_forced_support"]
 COMPONENTS = {
     "real": ["UrwidImageScreen (draw_screen, clear, clear_images, _start, _stop, "
              "_ti_clear_images)", "UrwidImage / UrwidImageCanvas", "KittyImage / ITerm2Image / "
@@ -58,6 +59,9 @@ PROFILES = [
     ("kitty", "0.25.0", "paren", True, None),
     ("Konsole", "23.08.1", "space", True, "placement"),
     ("XTerm", "370", "paren", False, None),
+    # a terminal that implements the kitty graphics protocol but is neither kitty nor konsole
+    # by name: the application sets KittyImage.forced_support (terminal identity "other")
+    ("ghostty", "1.1.0", "space", True, None),
 ]
 
 
@@ -100,6 +104,10 @@ def run(ch, ctx, fault=None):
             styles += ["kitty", "kitty", "kitty"]
         if name.lower() == "konsole":
             styles += ["iterm2"]
+        if name.lower() == "ghostty":
+            ti_image.KittyImage.forced_support = True
+            styles += ["kitty", "kitty", "kitty"]
+            ctx.probe("kitty_style_by_forced_support")
         class SubImage(UrwidImage):
             """an application-defined image widget"""
 
